@@ -808,6 +808,7 @@ func nrListed(entries []*m.S, n int) int {
 //@   ensures  newestEnded: result.lsi.nr >= 0 && a.Reps[repID].Segments[0].StartTime == 0 ==> specEnd(a, a.Reps[repID], result.lsi.nr) <= specNowTicks(a, a.Reps[repID], wt, atoMS) && specNowTicks(a, a.Reps[repID], wt, atoMS) < specEnd(a, a.Reps[repID], result.lsi.nr+1)
 //@   ensures  noneEndedYet: result.lsi.nr < 0 && a.Reps[repID].Segments[0].StartTime == 0 ==> specNowTicks(a, a.Reps[repID], wt, atoMS) < specEnd(a, a.Reps[repID], 0)
 //@   ensures  firstEnded: result.startNr >= 0 && a.Reps[repID].Segments[0].StartTime == 0 && specEnd(a, a.Reps[repID], 0) <= specStartTicks(a, a.Reps[repID], wt, atoMS) ==> specEnd(a, a.Reps[repID], result.startNr) <= specStartTicks(a, a.Reps[repID], wt, atoMS)
+//@   ensures  firstZero: result.startNr >= 0 && a.Reps[repID].Segments[0].StartTime == 0 && specStartTicks(a, a.Reps[repID], wt, atoMS) < specEnd(a, a.Reps[repID], 0) ==> result.startNr == 0
 //@   ensures  firstNewest: result.startNr >= 0 && a.Reps[repID].Segments[0].StartTime == 0 ==> specStartTicks(a, a.Reps[repID], wt, atoMS) < specEnd(a, a.Reps[repID], result.startNr+1)
 //@   ensures  lastSegInfo: result.lsi.nr >= 0 ==> result.lsi.startTime == uint64(specStart(a, a.Reps[repID], result.lsi.nr)) && result.lsi.dur == specDur(a.Reps[repID], result.lsi.nr) && result.lsi.timescale == uint64(a.Reps[repID].MediaTimescale)
 //@   allocates mpd.S, uint64, []*mpd.S
@@ -867,6 +868,9 @@ func nrListed(entries []*m.S, n int) int {
 //@   loop 1 invariant fstPrevLoop: relStartTime < segs[0].EndTime ==> (specStartTicks(a, rep, old(wt), atoMS) == (wt.startWraps+1)*int(wrapDur) + int(relStartTime) && relStartIdx == nrSegs-1) || (wt.startWraps == 0 && relStartIdx == 0 && specStartTicks(a, rep, old(wt), atoMS) == int(relStartTime))
 //@   loop 1 invariant fstNextInLoop: relStartIdx+1 < nrSegs ==> (se.startNr+1)/len(rep.Segments) == wt.startWraps && (se.startNr+1)%len(rep.Segments) == relStartIdx+1
 //@   loop 1 invariant fstNextAfterWrap: relStartIdx+1 == nrSegs ==> (se.startNr+1)/len(rep.Segments) == wt.startWraps+1 && (se.startNr+1)%len(rep.Segments) == 0
+//@   exit 2 requires fstEndZero: specEnd(a, rep, 0) == int(segs[0].EndTime)
+//@   exit 2 requires fstZeroInLoop: segs[0].StartTime == 0 && relStartTime >= segs[0].EndTime ==> specStartTicks(a, rep, old(wt), atoMS) >= specEnd(a, rep, 0)
+//@   exit 2 requires fstZeroPrevLoop: segs[0].StartTime == 0 && relStartTime < segs[0].EndTime && specStartTicks(a, rep, old(wt), atoMS) < specEnd(a, rep, 0) ==> se.startNr == 0
 //@   exit 2 requires fstEndedInLoop: segs[0].StartTime == 0 && relStartTime >= segs[0].EndTime ==> specEnd(a, rep, se.startNr) <= specStartTicks(a, rep, old(wt), atoMS)
 //@   exit 2 requires fstEndedPrevLoop: segs[0].StartTime == 0 && relStartTime < segs[0].EndTime && specEnd(a, rep, 0) <= specStartTicks(a, rep, old(wt), atoMS) ==> specEnd(a, rep, se.startNr) <= specStartTicks(a, rep, old(wt), atoMS)
 //@   exit 2 requires fstNextInLoopNr: relStartIdx+1 < nrSegs ==> (se.startNr+1)/len(rep.Segments) == wt.startWraps && (se.startNr+1)%len(rep.Segments) == relStartIdx+1
@@ -1084,6 +1088,149 @@ func lemmaListedIsServed(a *asset, repID string, cfg *ResponseConfig, nowMS, k i
 	lemmaPhaseFromTicks(a, rep, cfg, nowMS, kk, atoMS)
 	_, errK := findSegMetaFromNr(a, rep, uint32(k+snr), cfg, nowMS)
 	assert(errK == nil)
+}
+
+// twoWindows: two request instants, now1 <= now2, under one configuration (C05).
+func twoWindows(a *asset, repID string, cfg *ResponseConfig, now1, now2 int) bool {
+	return listedWindowOK(a, repID, cfg, now1) && listedWindowOK(a, repID, cfg, now2) && now1 <= now2
+}
+
+// lemmaRealDivMono: division by a positive real is monotone.
+//@ lemma lemmaRealDivMono
+//@   realdiv
+//@   ensures  d > 0.0 && x <= y ==> x/d <= y/d
+func lemmaRealDivMono(x, y, d float64) {}
+
+// lemmaNewestEndedMono: "the newest segment that has ended" is monotone in the instant.
+//@ lemma lemmaNewestEndedMono
+//@   requires a != nil && wfRep(rep) && orderedRep(rep) && loopExact(a, rep) && rep.Segments[0].StartTime == 0 && 0 <= l1 && 0 <= l2
+//@   requires specEnd(a, rep, l1) <= t1 && t1 <= t2 && t2 < specEnd(a, rep, l2+1)
+//@   ensures  l1 <= l2
+func lemmaNewestEndedMono(a *asset, rep *RepData, t1, t2, l1, l2 int) {
+	if l2 < l1 {
+		lemmaSpecEndMono(a, rep, l2+1, l1)
+	}
+}
+
+// lemmaWindowMovesForward (C05): as the request instant grows under a fixed configuration,
+// neither the last nor the first number that generateTimelineEntries lists moves backwards, and
+// once something is listed it stays that way. (With the live-edge postcondition - the last listed
+// number is the newest segment that has ended - this is "the live edge advances by exactly one
+// segment at the instant that segment becomes available".)
+//@ lemma lemmaWindowMovesForward
+//@   requires twoWindows(a, repID, cfg, now1, now2)
+func lemmaWindowMovesForward(a *asset, repID string, cfg *ResponseConfig, now1, now2 int) {
+	rep := a.Reps[repID]
+	ts := rep.MediaTimescale
+	W := wrapDurOf(a, rep)
+	S := cfg.StartTimeS
+	tsbd := m.Duration(*cfg.TimeShiftBufferDepthS * 1000000000)
+	wt1 := calcWrapTimes(a, cfg, now1, tsbd)
+	wt2 := calcWrapTimes(a, cfg, now2, tsbd)
+	atoMS := int(1000 * cfg.AvailabilityTimeOffsetS)
+	se1 := a.generateTimelineEntries(repID, wt1, atoMS)
+	se2 := a.generateTimelineEntries(repID, wt2, atoMS)
+	lemmaWrapDurIsRepDur(a, rep)
+	assert(1000*W == a.LoopDurMS*ts)
+	// the two instants and the two window starts, in ticks, are ordered like the instants in ms
+	n1 := specNowTicks(a, rep, wt1, atoMS)
+	n2 := specNowTicks(a, rep, wt2, atoMS)
+	lemmaTicksMs(wt1.nowWraps, a.LoopDurMS, ts, wt1.nowRelMS, atoMS, W, now1-1000*S, n1)
+	lemmaTicksMs(wt2.nowWraps, a.LoopDurMS, ts, wt2.nowRelMS, atoMS, W, now2-1000*S, n2)
+	lemmaMulMono(now1-1000*S+atoMS, now2-1000*S+atoMS, ts)
+	assert(n1 <= n2)
+	s1 := specStartTicks(a, rep, wt1, atoMS)
+	s2 := specStartTicks(a, rep, wt2, atoMS)
+	lemmaTicksMs(wt1.startWraps, a.LoopDurMS, ts, wt1.startRelMS, atoMS, W, wt1.startTimeMS-1000*S, s1)
+	lemmaTicksMs(wt2.startWraps, a.LoopDurMS, ts, wt2.startRelMS, atoMS, W, wt2.startTimeMS-1000*S, s2)
+	assert(wt1.startTimeMS <= wt2.startTimeMS)
+	lemmaMulMono(wt1.startTimeMS-1000*S+atoMS, wt2.startTimeMS-1000*S+atoMS, ts)
+	assert(s1 <= s2)
+	last1 := se1.lsi.nr
+	last2 := se2.lsi.nr
+	if last1 < 0 {
+		return
+	}
+	// something was listed at now1: segment 0 had ended, so it has ended at now2
+	lemmaSpecEndMono(a, rep, 0, last1)
+	assert(last2 >= 0)
+	if last2 < last1 {
+		lemmaSpecEndMono(a, rep, last2+1, last1)
+	}
+	assert(last1 <= last2)
+	first1 := se1.startNr
+	first2 := se2.startNr
+	if first2 < first1 {
+		lemmaSpecEndMono(a, rep, first2+1, first1)
+	}
+	assert(first1 <= first2)
+}
+
+// lemmaSamePublishTimeSameWindow (C05): "two MPDs with the same publishTime are identical" needs
+// at least that two instants with the same last listed segment (the only input of publishTime) have
+// the same first listed segment. KNOWN FINDING: they do not - a segment leaves the time-shift
+// buffer without publishTime changing (findings/C05_same_publishtime_test.go.txt).
+//@ lemma lemmaSamePublishTimeSameWindow
+//@   requires twoWindows(a, repID, cfg, now1, now2)
+func lemmaSamePublishTimeSameWindow(a *asset, repID string, cfg *ResponseConfig, now1, now2 int) {
+	tsbd := m.Duration(*cfg.TimeShiftBufferDepthS * 1000000000)
+	wt1 := calcWrapTimes(a, cfg, now1, tsbd)
+	wt2 := calcWrapTimes(a, cfg, now2, tsbd)
+	atoMS := int(1000 * cfg.AvailabilityTimeOffsetS)
+	se1 := a.generateTimelineEntries(repID, wt1, atoMS)
+	se2 := a.generateTimelineEntries(repID, wt2, atoMS)
+	if se1.lsi.nr >= 0 && se1.lsi.nr == se2.lsi.nr {
+		assert(se1.startNr == se2.startNr)
+	}
+}
+
+// lemmaPublishTimeForward (C05): the publishTime computed from the newest listed segment is never
+// later than the request instant and never decreases as the request instant grows.
+//@ lemma lemmaPublishTimeForward
+//@   realdiv
+//@   requires twoWindows(a, repID, cfg, now1, now2)
+func lemmaPublishTimeForward(a *asset, repID string, cfg *ResponseConfig, now1, now2 int) {
+	rep := a.Reps[repID]
+	ts := rep.MediaTimescale
+	W := wrapDurOf(a, rep)
+	S := cfg.StartTimeS
+	tsbd := m.Duration(*cfg.TimeShiftBufferDepthS * 1000000000)
+	wt1 := calcWrapTimes(a, cfg, now1, tsbd)
+	wt2 := calcWrapTimes(a, cfg, now2, tsbd)
+	atoMS := int(1000 * cfg.AvailabilityTimeOffsetS)
+	se1 := a.generateTimelineEntries(repID, wt1, atoMS)
+	se2 := a.generateTimelineEntries(repID, wt2, atoMS)
+	last1 := se1.lsi.nr
+	last2 := se2.lsi.nr
+	if last1 < 0 || last2 < 0 {
+		return
+	}
+	lemmaWrapDurIsRepDur(a, rep)
+	assert(1000*W == a.LoopDurMS*ts)
+	n1 := specNowTicks(a, rep, wt1, atoMS)
+	n2 := specNowTicks(a, rep, wt2, atoMS)
+	lemmaTicksMs(wt1.nowWraps, a.LoopDurMS, ts, wt1.nowRelMS, atoMS, W, now1-1000*S, n1)
+	lemmaTicksMs(wt2.nowWraps, a.LoopDurMS, ts, wt2.nowRelMS, atoMS, W, now2-1000*S, n2)
+	lemmaMulMono(now1-1000*S+atoMS, now2-1000*S+atoMS, ts)
+	assert(n1 <= n2)
+	lemmaNewestEndedMono(a, rep, n1, n2, last1, last2)
+	e1 := specEnd(a, rep, last1)
+	e2 := specEnd(a, rep, last2)
+	lemmaGapFree(a, rep, last1)
+	lemmaGapFree(a, rep, last2)
+	lemmaSpecEndMono(a, rep, last1, last2)
+	assert(e1 <= e2 && e2 <= n2)
+	// magnitudes: the recorded start and duration fit the unsigned fields
+	lemmaMulMono(now2-1000*S+atoMS, 9000000000000, ts)
+	assert(e2 <= 90000000000000000)
+	assert(int(se1.lsi.startTime+se1.lsi.dur) == e1 && int(se2.lsi.startTime+se2.lsi.dur) == e2)
+	lemmaTicksVsMs(e2, ts, now2+atoMS-1000*S)
+	p1 := calcPublishTime(cfg, se1.lsi)
+	p2 := calcPublishTime(cfg, se2.lsi)
+	assert(p2 <= float64(now2)*0.001)
+	lemmaRealDivMono(float64(se1.lsi.startTime+se1.lsi.dur), float64(se2.lsi.startTime+se2.lsi.dur), float64(se1.lsi.timescale))
+	assert(se1.lsi.timescale == se2.lsi.timescale)
+	assert(p1 <= p2)
 }
 
 // ---------------------------------------------------------------------------
